@@ -19,7 +19,8 @@
 //   - dnshost  : DNSLink hosts (with ports, with/without record, NoDNSLink).
 //   - frag     : path2sub requests that carry a URL fragment.
 //   - xfh      : path2sub / sub2path requests that arrive the way a reverse
-//     proxy delivers them (Host = internal name, X-Forwarded-Host = public host).
+//     proxy delivers them (Host = internal name, X-Forwarded-Host = public host);
+//     also DNSLink hosts delivered that way (record only for the forwarded name).
 //   - inline   : InlineDNSLink/UninlineDNSLink on valid LDH names, with lengths
 //     concentrated around the 63-character limit.
 //
@@ -52,12 +53,12 @@ import (
 func main() { vlib.Run("C32", run) }
 
 func run(c *vlib.Ctx) {
-	c.Rule("every case draws a PublicGateways map (2-5 of: dweb.link, localhost, localhost:8080, gw.example.com, example.org + gw.example.org (nested), sub-domain.example.org, *.wild.example.net, 127.0.0.1:8080; UseSubdomains/InlineDNSLink/NoDNSLink random; Paths from /ipfs,/ipns,/ipld,/p2p) and a DNSLink table, then 6 requests. ids: CIDs (sha2-256/512, sha3, blake2b, identity of 0-40 bytes; codecs dag-pb, raw, dag-cbor, dag-json, libp2p-key; text in v0, base32, base32upper, base36, base58btc, base16, base64url), peer IDs (ed25519, secp256k1, rsa-like; legacy base58, CIDv1 base32/base36, CIDv1 with dag-pb codec), LDH DNS names with hyphens incl. xn-- and names shaped like subdomain-gateway hosts, single hyphenated labels ('my-site') whose DNSLink record exists only for the label as written / only for the un-inlined reading / both / neither; remainders with unicode, %, ?, #, spaces, trailing slashes; queries; X-Forwarded-Proto https. inline stratum: 16 LDH names per case, half with inlined length 58..68. non-trivial: path2sub/frag = a redirect was followed to `next` with a non-empty remainder and a query; sub2path = a non-canonical or inlined label reached `next`; dnshost = a host with a port and a record was mapped; xfh = as path2sub/sub2path with every request delivered through X-Forwarded-Host; inline = a name with a hyphen and at least two dots round-tripped and one name was refused for length. distinct = FNV of config + requests")
+	c.Rule("every case draws a PublicGateways map (2-5 of: dweb.link, localhost, localhost:8080, gw.example.com, example.org + gw.example.org (nested), sub-domain.example.org, *.wild.example.net, 127.0.0.1:8080; UseSubdomains/InlineDNSLink/NoDNSLink random; Paths from /ipfs,/ipns,/ipld,/p2p) and a DNSLink table, then 6 requests. ids: CIDs (sha2-256/512, sha3, blake2b, identity of 0-40 bytes; codecs dag-pb, raw, dag-cbor, dag-json, libp2p-key; text in v0, base32, base32upper, base36, base58btc, base16, base64url), peer IDs (ed25519, secp256k1, rsa-like; legacy base58, CIDv1 base32/base36, CIDv1 with dag-pb codec), LDH DNS names with hyphens incl. xn-- and names shaped like subdomain-gateway hosts, single hyphenated labels ('my-site') whose DNSLink record exists only for the label as written / only for the un-inlined reading / both / neither; remainders with unicode, %, ?, #, spaces, trailing slashes; queries; X-Forwarded-Proto https. inline stratum: 16 LDH names per case, half with inlined length 58..68. non-trivial: path2sub/frag = a redirect was followed to `next` with a non-empty remainder and a query; sub2path = a non-canonical or inlined label reached `next`; dnshost = a host with a port and a record was mapped; xfh = path2sub / sub2path / dnshost requests all delivered through X-Forwarded-Host with Host = an internal name (internal.proxy:8080, 127.0.0.1:8080, backend.local, 10.0.0.7, gateway-0.svc.cluster.local:8080) that never has a record; inline = a name with a hyphen and at least two dots round-tripped and one name was refused for length. distinct = FNV of config + requests")
 	c.Cases("path2sub", c.N(1300, 32000), func(k *vlib.Case) { hostCase(k, "path2sub") })
 	c.Cases("sub2path", c.N(1100, 27000), func(k *vlib.Case) { hostCase(k, "sub2path") })
 	c.Cases("dnshost", c.N(500, 12000), func(k *vlib.Case) { hostCase(k, "dnshost") })
 	c.Cases("frag", c.N(200, 5000), func(k *vlib.Case) { hostCase(k, "frag") })
-	c.Cases("xfh", c.N(200, 5000), func(k *vlib.Case) { hostCase(k, "xfh") })
+	c.Cases("xfh", c.N(300, 7500), func(k *vlib.Case) { hostCase(k, "xfh") })
 	c.Cases("inline", c.N(320, 8000), inlineCase)
 }
 
@@ -97,7 +98,9 @@ type world struct {
 	handler http.Handler
 	last    seen
 	gws     []gwInfo
-	xfh     bool // requests arrive with Host=internal.proxy:8080 and X-Forwarded-Host
+	xfh     bool // requests arrive with Host=<internal name> and X-Forwarded-Host=<public host>
+	// internalHost is the Host header a reverse proxy would send in the xfh stratum
+	internalHost string
 }
 
 // fail records a violation; in the xfh stratum (requests arriving through a
@@ -107,7 +110,7 @@ func (w *world) fail(class, clause, expected, observed string) {
 		class = "xfh/subdomain-redirect-loop"
 	} else if w.xfh {
 		class = "xfh/" + class
-		observed += " [Host=internal.proxy:8080, X-Forwarded-Host carries the public host]"
+		observed += " [Host=" + w.internalHost + ", X-Forwarded-Host carries the public host]"
 	}
 	w.k.Fail(class, clause, expected, observed)
 }
@@ -142,7 +145,7 @@ func (w *world) do(rq reqSpec) outcome {
 	u := &url.URL{Path: rq.path, RawQuery: rq.rawQuery, Fragment: rq.fragment}
 	req := (&http.Request{Method: "GET", URL: u, Host: rq.host, Header: http.Header{}, Proto: "HTTP/1.1", ProtoMajor: 1, ProtoMinor: 1, RequestURI: u.RequestURI()}).WithContext(context.Background())
 	if w.xfh {
-		req.Host = "internal.proxy:8080"
+		req.Host = w.internalHost
 		req.Header.Set("X-Forwarded-Host", rq.host)
 	}
 	if rq.https {
@@ -579,6 +582,10 @@ func hostCase(k *vlib.Case, stratum string) {
 	w := newWorld(k, stratum)
 	w.xfh = stratum == "xfh"
 	r := k.R
+	if w.xfh {
+		w.internalHost = vlib.Pick(r, []string{"internal.proxy:8080", "127.0.0.1:8080", "backend.local", "10.0.0.7", "gateway-0.svc.cluster.local:8080"})
+		k.Logf("reverse proxy: Host=%s, X-Forwarded-Host=<host shown per request>", w.internalHost)
+	}
 	nreq := 6
 	if stratum == "frag" {
 		nreq = 4
@@ -595,10 +602,15 @@ func hostCase(k *vlib.Case, stratum string) {
 		case "dnshost":
 			nontrivial = w.dnshost(r) || nontrivial
 		case "xfh":
-			if i%2 == 0 {
+			switch i % 3 {
+			case 0:
 				nontrivial = w.path2sub(r, false) || nontrivial
-			} else {
+			case 1:
 				nontrivial = w.sub2path(r) || nontrivial
+			default:
+				// DNSLink host delivered through X-Forwarded-Host: only the
+				// forwarded name has a record, never the internal Host
+				nontrivial = w.dnshost(r) || nontrivial
 			}
 		}
 	}
